@@ -39,15 +39,7 @@ Proof. exact decode_encode_zero. Qed.
     where q is M scaled exactly when M has at most 53 bits, and otherwise the multiple
     of 2^sh nearest to M, ties to even; the pair (q, exponent) is put in IEEE normal
     form and is a normal double. [rne_unique] says the conditions determine q. *)
-Definition rne_of (M q : Z) : Prop :=
-  let sh := Z.log2 M - 52 in
-  two52 <= q <= two53 /\
-  (sh <= 0 -> q = M * 2 ^ (- sh)) /\
-  (0 < sh -> 2 * Z.abs (M - q * 2 ^ sh) <= 2 ^ sh /\
-             (2 * Z.abs (M - q * 2 ^ sh) = 2 ^ sh -> Z.even q = true)).
-
-Definition f64_of_dyadic (s : bool) (q e : Z) : Z :=
-  if q =? two53 then f64_of_norm s two52 (e + 1) else f64_of_norm s q e.
+(* rne_of, f64_of_dyadic, sig53 are defined in Gds/GdsReal_proofs.v *)
 
 Theorem C15_decode_correctly_rounded :
   forall w, word64 w -> gds_mant w <> 0 ->
@@ -67,21 +59,33 @@ Proof. exact decode_zero_mantissa. Qed.
 
 (** (5) Re-encoding a normalised real that carries at most 53 significant bits
     reproduces the same eight bytes. *)
-Definition sig53 (M : Z) : Prop := M mod 2 ^ (Z.log2 M - 52) = 0.
-
 Theorem C15_encode_decode53 :
   forall est w, word64 w -> gds_normalised w -> sig53 (gds_mant w) ->
     gds_encode_with est (gds_decode w) = w.
 Proof. exact encode_decode53. Qed.
 
-(** (6) What the reader relies on (C10): decode . encode . decode = decode for EVERY word,
-    including un-normalised and tiny ones (clamp at exponent -64). *)
+(** (6) What the reader relies on (C10): decode . encode . decode = decode for every word,
+    including un-normalised and tiny ones (clamp at exponent -64), EXCEPT the sixteen words
+    with exponent byte 127 whose 56-bit mantissa rounds up to 2^56 when converted to a
+    double: they decode to +-16^63 = 2^252, which no GDSII real can represent
+    (known-finding class gds-real-rounds-to-16^63, see C10 and known_findings.json). *)
+Definition rounds_to_max (w : Z) : Prop := gds_exp7 w = 127 /\ two56 - 4 <= gds_mant w.
+
 Theorem C15_decode_reencode_stable :
-  forall est w, word64 w ->
+  forall est w, word64 w -> ~ rounds_to_max w ->
     gds_decode (gds_encode_with est (gds_decode w)) = gds_decode w
     \/ (f64_is_zero (gds_decode w) = true /\
         f64_is_zero (gds_decode (gds_encode_with est (gds_decode w))) = true).
-Proof. exact decode_reencode_stable. Qed.
+Proof. exact decode_reencode_stable_below_max. Qed.
+
+(** The excluded class really fails: w = 0x7FFFFFFFFFFFFFFF decodes to 2^252 and re-encodes
+    to a word that decodes to 0, whatever the estimate. *)
+Theorem C15_decode_reencode_max_refuted :
+  exists w, word64 w /\ forall est,
+    ~ (gds_decode (gds_encode_with est (gds_decode w)) = gds_decode w
+       \/ (f64_is_zero (gds_decode w) = true /\
+           f64_is_zero (gds_decode (gds_encode_with est (gds_decode w))) = true)).
+Proof. exact decode_reencode_stable_refuted. Qed.
 
 (** The code before the repair violated (3) even with an estimate within one of the
     true exponent: x = 16 - 2^-49, est = 2. *)
@@ -94,8 +98,10 @@ Proof. exact orig_refuted. Qed.
 Example C15_nonvacuous :
   in_gds_rangeb 4611686018427387904 = true (* 2.0 *) /\
   in_gds_rangeb 13826050856027422720 = true (* -0.75-ish *) /\
-  gds_encode 4611686018427387904 = 4765553605630853120 (* 0x4220000000000000 *) /\
-  gds_decode 4765553605630853120 = 4611686018427387904.
+  (* literal corrected: 2.0 = 0.125 * 16^1 encodes as 0x4120000000000000 = 4692750811720056832
+     (the earlier 4765553605630853120 was a mis-converted constant; checked by vm_compute) *)
+  gds_encode 4611686018427387904 = 4692750811720056832 (* 0x4120000000000000 *) /\
+  gds_decode 4692750811720056832 = 4611686018427387904.
 Proof. vm_compute. repeat split; reflexivity. Qed.
 
 Print Assumptions C15_encode_is_reference.
@@ -107,4 +113,5 @@ Print Assumptions C15_rne_unique.
 Print Assumptions C15_decode_zero_mantissa.
 Print Assumptions C15_encode_decode53.
 Print Assumptions C15_decode_reencode_stable.
+Print Assumptions C15_decode_reencode_max_refuted.
 Print Assumptions C15_orig_refuted.
